@@ -120,6 +120,8 @@ def make_family_case(rng, n_children=1, n_variants=(6, 14), contig_len=(1500, 30
         for i in range(n):
             x = _haps_for_genotype(rng, rng.choices([0, 1, 2], (1, 3, 1))[0])
             haps[u][0].append(x[0]); haps[u][1].append(x[1]); gt[u].append(GT_OF[x[0] + x[1]])
+            if rng.random() < 0.25:
+                gt[u][i] = rng.choice(["./.", "."])     # missing OUTSIDE the family: no business of the family's phasing
     return {"contig": "chr1", "seq": seq, "variants": [{"pos": v.pos, "ref": v.ref, "alt": v.alt, "kind": v.kind} for v in variants],
             "samples": samples, "haps": haps, "gt": gt, "reads": [], "ped": ped, "trios": trios, "genmap": None,
             "truth_status": kinds_hit, "tpaths": {c: [list(p[0]), list(p[1])] for c, p in tpaths.items()}}
